@@ -23,6 +23,7 @@ DOC = {
         'C05.R6': 'run_script counts only successes: Result<FileLen> is turned into a count only through filter_map(Result::ok)',
         'C05.R7': 'error discipline: no io::Result in dedupe.rs/reflink.rs/lock.rs is discarded (named exceptions)',
         'C05.R8': 'the temporary is a sibling: temp_file derives from path.parent() and path.file_name(), has a random suffix, and its length is bounded (file-name part clamped so that name + suffix <= 255 bytes)',
+        'C05.R12': 'a path that fclones refuses or fails to process keeps its content: the paths that lead to one stored file (hard links, reported symbolic links) are processed together or not at all - when check_preconditions refuses a command, dedupe() drops the other commands with the same file id, and when execute() fails, run_script skips the remaining commands of that file',
         'C05.R11': 'timestamps restored: reflink() remembers the time stamps of the parent directory, works in it and writes them back; the commands of different groups run in parallel, so that snapshot .. restore section is exclusive per directory (a lock taken before the snapshot and released after the restore), otherwise one command remembers or restores what another one has just changed',
         'C05.R10': 'no buffered writer (BufWriter/LineWriter, also inside another value) in dedupe.rs/reflink.rs/lock.rs/main.rs is dropped on a success path without a checked flush: its drop discards the error of the last write, after which the source would be removed (expected instances on this tree: 0; engine control in the fixture crate)',
         'C05.R9': 'the primitive wrappers are what their callers assume: remove = remove_file(path); unsafe_rename = rename(source, target); unsafe_copy = copy(source, target); hardlink = hard_link(target, link); symlink_internal = symlink(target, link); mkdirs = create_dir_all(path); each is the only mutating primitive in its wrapper and its error is returned',
@@ -49,6 +50,7 @@ def run(ctx):
     r9(ctx, lib)
     r10(ctx, lib)
     r11(ctx, lib)
+    r12(ctx, lib)
     from .common import run_mandatory
     run_mandatory(ctx, 'C05')
     if ctx.tier == 'thorough' and not getattr(ctx, 'sibling', None):
@@ -375,6 +377,25 @@ def r5(ctx, lib):
                       'temp (the only backup) can be removed on a path where the overwrite failed or has not happened yet')
         else:
             ctx.violation(rule, P + '|removes-non-temp', c.where(), 'linux_reflink removes %s' % r)
+    # FICLONE shares [0, size of source) and leaves a longer destination its tail: "completely replaced by a clone of identical bytes" needs the length as
+    # well (the lengths differ when the size check is off: reports made with --transform)
+    ri = lib.body('reflink::reflink_into')
+    if ri is not None:
+        io_ = ri.calls(r'^libc::ioctl$')
+        sl_ = [c for c in ri.calls(r'^std::fs::File::set_len$') if backslice(ri, [c.args[0]]).params == {2}]
+        ok_len = False
+        if io_ and sl_:
+            # every path from the ioctl to a return of Ok passes set_len (the failure side of the ioctl returns Err)
+            ok_len = all(('Ok' not in return_variants_from(ri, x)) or ri.must_pass(x, lambda y: y in {c.bb for c in sl_})[0] for x in ri.succs(io_[0].bb)) and \
+                any(backslice(ri, [c.args[1]]).has_call(r'Metadata::len$') for c in sl_)
+            if not ok_len:
+                # the Ok value may BE the result of set_len (tail call): then no Ok aggregate exists outside it
+                oks = [bi for bi, blk in enumerate(ri.blocks) for st in blk['stmts'] if st['p'][0] == 0 and st['rv']['k'] == 'agg' and st['rv'].get('variant') == 'Ok']
+                ok_len = not oks and any(c.dest[0] == 0 for c in sl_) and any(backslice(ri, [c.args[1]]).has_call(r'Metadata::len$') for c in sl_)
+        ctx.check(ok_len, rule, ri.path + '|clone-sets-the-length', (sl_[0].where() if sl_ else (io_[0].where() if io_ else ri.where())), 'after the clone the destination is given the length of the source',
+                  'FICLONE shares the data of the source from the beginning of the destination and leaves a LONGER destination what it had beyond that; the size check that makes the lengths equal is '
+                  'switched off for reports made with --transform: `group --transform "head -c 3"` + `dedupe` turns t/b ("abcLONGER-TAIL-DATA") into "abcSHORTR-TAIL-DATA" - neither its old content nor a '
+                  'clone of t/a ("abcSHORT"), and "Processed 1 files"')
     # reflink(): linux_reflink result propagated before restore_metadata
     rf = ctx.need_body(rule, 'reflink::reflink')
     if rf is not None:
@@ -662,6 +683,30 @@ def _consts_of(body):
                 if isinstance(k, dict):
                     out.append(str(k.get('v') or k.get('item') or k))
     return out
+
+
+def r12(ctx, lib):
+    rule = 'C05.R12'
+    SETI = r'(Hash|BTree)Set(::)?<.*>::insert$'
+    SETC = r'(Hash|BTree)Set(::)?<.*>::contains$'
+    def by_file_id(x, c):
+        return any(backslice(x, [a]).has_call(r'FsCommand::file_id$') or any(n in ('file_id', 'id') for n in [x.local_name(l) for l in backslice(x, [a]).locals if x.local_name(l)]) for a in c.args[1:])
+    for fn, step, what, bad in (
+            ('dedupe::dedupe', r'FsCommand::check_preconditions$', 'generation',
+             'when the command of a reported symbolic link is refused by a precondition (its directory cannot be modified, the move target exists) the command for the file it points to is still '
+             'generated and run: the link is "left in place with a warning" but points nowhere afterwards - `fclones remove` with t/l read-only removes t/a/x, and `cat t/l/x` fails'),
+            ('dedupe::run_script', r'FsCommand::execute$', 'execution',
+             'when execute() fails for a symbolic link (or for one hard link of a file) the remaining commands of the group are executed all the same, among them the one that removes the file the '
+             'link points to: the path that was not processed loses its content')):
+        b = ctx.need_body(rule, fn)
+        if b is None:
+            continue
+        bodies = [b] + [lib.body(cp) for cp in lib.closures_of(b.path)]
+        steps = [(x, c) for x in bodies for c in x.calls(step)]
+        ins = [(x, c) for x in bodies for c in x.calls(SETI) if by_file_id(x, c)]
+        con = [(x, c) for x in bodies for c in x.calls(SETC) if by_file_id(x, c)]
+        ctx.check(bool(steps) and bool(ins) and bool(con), rule, fn + '|one-file-one-fate', (steps[0][1].where() if steps else b.where()),
+                  '%s: a refusal / failure is remembered by file id and the other paths of that file are skipped' % what, bad)
 
 
 WRAPPERS = {
